@@ -146,13 +146,14 @@ theorem rulePipe_local : RuleLocal clsPipe rulePipe := by
   rule_cases h
   all_goals (simp only [drop_, Option.some.injEq] at h; subst h; apply actLocal_drop; simp_all [clsPipe])
 
-theorem semiSep_local : ∀ (ts : List Tok) (st : List (Bool × Bool)) (cur md : Bool) (start pend : Nat) (lo : Tok),
-    outside clsSemi (semiSep st cur md start pend lo ts) = outside clsSemi ts := by
+theorem semiSep_local : ∀ (ts : List Tok) (st : List (StmtSt × Bool × Bool)) (s : StmtSt) (md al : Bool)
+    (start pend : Nat) (lo : Tok),
+    outside clsSemi (semiSep st s md al start pend lo ts) = outside clsSemi ts := by
   intro ts
   induction ts with
   | nil => intros; simp [semiSep]
   | cons t ts ih =>
-    intro st cur md start pend lo
+    intro st s md al start pend lo
     unfold semiSep
     simp only []
     repeat' split
@@ -330,7 +331,7 @@ def postSoft (cfg : Cfg) (ts : List Tok) : List Tok :=
   let ts := runRule ruleEmpty ts
   let ts := runRule rulePipe ts
   let ts := closureSep 0 0 noTok ts
-  let ts := semiSep [] false false 1 0 noTok ts
+  let ts := semiSep [] {} false false 1 0 noTok ts
   let ts := runRule ruleBlock ts
   let ts := runRule ruleComma ts
   let ts := onlyIf cfg.parens (runRule ruleParen) ts
@@ -357,7 +358,7 @@ theorem postSoft_hards (cfg : Cfg) (ts : List Tok) : hards cfg (postSoft cfg ts)
     · rfl
   rw [hp, runRule_hards cfg ruleComma_local (clsComma_soft cfg),
       runRule_hards cfg ruleBlock_local (clsBlock_soft cfg),
-      hards_eq_outside, outside_mono (clsSemi_soft cfg) (semiSep_local _ [] false false 1 0 noTok), ← hards_eq_outside,
+      hards_eq_outside, outside_mono (clsSemi_soft cfg) (semiSep_local _ [] {} false false 1 0 noTok), ← hards_eq_outside,
       hards_eq_outside, outside_mono (clsComma_soft cfg) (closureSep_local _ 0 0 noTok), ← hards_eq_outside,
       runRule_hards cfg rulePipe_local (clsPipe_soft cfg),
       runRule_hards cfg ruleEmpty_local (clsEmpty_soft cfg),
